@@ -543,11 +543,11 @@ func sameFieldLoad(a, b ssa.Value) bool {
 // builderCall: one construction of a compare query inside a builder.
 type builderSite struct {
 	fn      *ssa.Function
-	call    *ssa.Call       // the constructor call (or direct allocation)
-	cmpType *types.Named    // comparator type constructed
-	valType *types.Named    // validator stored into an interface-embedded comparator (DirectEQ), if any
-	left    ssa.Value       // value assigned to the LEFT role
-	right   ssa.Value       // value assigned to the RIGHT role
+	call    *ssa.Call    // the constructor call (or direct allocation)
+	cmpType *types.Named // comparator type constructed
+	valType *types.Named // validator stored into an interface-embedded comparator (DirectEQ), if any
+	left    ssa.Value    // value assigned to the LEFT role
+	right   ssa.Value    // value assigned to the RIGHT role
 }
 
 // queryRoles finds, in the compare-query type, which field is LEFT (its list goes to the comparator) and RIGHT.
